@@ -622,10 +622,11 @@ static void x_once(const plan_t *p)
             /* >= 2^36 buckets: honest ENOMEM, far over the budget; the largest values make the byte count of the
              * bucket array unrepresentable -- such a request cannot be satisfied either and must change nothing */
             if (n >= ((uint64_t)1 << 36)) {
-                static const uint64_t big[] = { (uint64_t)1 << 36, (uint64_t)1 << 60, ((uint64_t)1 << 60) + 1, UINT64_MAX / 16, UINT64_MAX / 16 + 1,
+                static const uint64_t big[] = { (uint64_t)1 << 36, ((uint64_t)1 << 28) + 1, ((uint64_t)1 << 32) + 1, (uint64_t)1 << 60, ((uint64_t)1 << 60) + 1, UINT64_MAX / 16, UINT64_MAX / 16 + 1,
                                                 (uint64_t)1 << 63, UINT64_MAX, UINT64_MAX - 1 };
                 n = big[(n >> 36) % (sizeof big / sizeof big[0])];
                 if (n > ((uint64_t)1 << 36)) { PROBE("resize_bucket_bytes_unrepresentable"); g_cur_ctx = "count-near-max"; }
+                else if (n < ((uint64_t)1 << 36)) g_cur_ctx = "count-2^32";
             }
             if ((p->mode == 19 || p->mode == 17) && !m->inited && fn == F_NULL) fn = F_DIV + (int)(o->a[1] % 5);
             if (!m->settled && m->inited) PROBE("resize_while_pending");
@@ -633,7 +634,7 @@ static void x_once(const plan_t *p)
             if (c17_after(t, "resize")) return;
             if (g_aborted) VIOL(g_aborted == 2 ? "assert" : "abort", "resize aborted");
             check_m0(t);
-            satisfied = n >= 1 && !(g_hs.fired_in_op || g_hs.enomem_in_op) && n <= ((uint64_t)1 << 36);
+            satisfied = n >= 1 && !(g_hs.fired_in_op || g_hs.enomem_in_op) && n < ((uint64_t)1 << 28);
             if (g_hs.fired_in_op) PROBE("resize_alloc_fail_fired");
             if (g_hs.enomem_in_op) PROBE("resize_enomem");
             if (satisfied) {
